@@ -93,6 +93,9 @@ type wsess struct {
 	lastReqElec *spb.Uint128
 	opByID      map[uint64]abs.Op
 	failedDel   map[uint64]bool
+	nelec       int          // election responses written on this stream
+	prevElec    *spb.Uint128 // the id the previous election response carried (before any misreporting)
+	closed      bool
 }
 
 func (r *recorder) label(cid string) string {
@@ -234,7 +237,8 @@ func (r *recorder) srvTracer(ev string, args ...any) {
 
 type wstream struct {
 	spb.GRIBI_ModifyServer
-	s *wsess
+	s      *wsess
+	sendMu sync.Mutex // a leaking server writes to a stream from another session's handler
 }
 
 func (w *wstream) Recv() (*spb.ModifyRequest, error) {
@@ -326,6 +330,34 @@ func (w *wstream) Send(r *spb.ModifyResponse) error {
 		if r.GetElectionId() != nil && s.lastReqElec != nil {
 			out = &spb.ModifyResponse{ElectionId: s.lastReqElec}
 		}
+	case "staleElectionUpdate":
+		// the faulty server runs the election correctly but answers an update of the election id within a session with the
+		// id it reported before
+		if r.GetElectionId() != nil {
+			s.nelec++
+			if s.nelec >= 2 && s.prevElec != nil {
+				out = &spb.ModifyResponse{ElectionId: s.prevElec}
+			}
+			s.prevElec = r.GetElectionId()
+		}
+	case "leakResults":
+		// the faulty server copies every response that carries results to the other Modify sessions that are open
+		if len(r.GetResult()) > 0 {
+			s.rec.mu.Lock()
+			var others []*wstream
+			for o, os := range s.rec.byStrm {
+				if ow, ok := o.(*wstream); ok && ow != w && !os.closed {
+					others = append(others, ow)
+					os.sent = append(os.sent, proto.Clone(r).(*spb.ModifyResponse))
+				}
+			}
+			s.rec.mu.Unlock()
+			for _, ow := range others {
+				ow.sendMu.Lock()
+				ow.GRIBI_ModifyServer.Send(proto.Clone(r).(*spb.ModifyResponse))
+				ow.sendMu.Unlock()
+			}
+		}
 	}
 	s.rec.mu.Lock()
 	s.sent = append(s.sent, out)
@@ -333,6 +365,8 @@ func (w *wstream) Send(r *spb.ModifyResponse) error {
 	if len(out.GetResult()) == 0 && out.GetElectionId() == nil && out.GetSessionParamsResult() == nil && len(r.GetResult()) > 0 {
 		return nil // everything was filtered out
 	}
+	w.sendMu.Lock()
+	defer w.sendMu.Unlock()
 	return w.GRIBI_ModifyServer.Send(out)
 }
 
@@ -484,6 +518,9 @@ func (sv *service) Modify(ms spb.GRIBI_ModifyServer) error {
 	r.byStrm[w] = s
 	r.mu.Unlock()
 	err := sv.n.srv.Modify(w)
+	r.mu.Lock()
+	s.closed = true
+	r.mu.Unlock()
 	if r.fault == "dropErrorReason" && err != nil {
 		// the faulty server ends the RPC with the right code but without saying why (no ModifyRPCErrorDetails)
 		err = status.Error(status.Code(err), status.Convert(err).Message())
@@ -618,6 +655,73 @@ func ProbeRejectsForwardRefs(fault string) (bool, error) {
 		return false, err
 	}
 	return len(oks) == 0 && len(fails) == 1, nil
+}
+
+type nullSink struct{}
+
+func (nullSink) Emit(ribdrv.Event) {}
+
+// ProbeLeaksResults reports whether a node wrapped by the given fault copies the results of one session's operations to
+// another open Modify session (independent evidence that the wrapper is faulty as intended: the wire traces of tests that
+// run two clients at once are not validated at message grain).
+func ProbeLeaksResults(fault string) (bool, error) {
+	n, err := newNode(nullSink{}, true, fault, Names{DefaultNI: srvDefault, VRF: "NON-DEFAULT-VRF"})
+	if err != nil {
+		return false, err
+	}
+	defer n.stop()
+	ctx, cancel := context.WithTimeout(context.Background(), 20*time.Second)
+	defer cancel()
+	cl := spb.NewGRIBIClient(n.conn)
+	open := func() (spb.GRIBI_ModifyClient, error) {
+		st, err := cl.Modify(ctx)
+		if err != nil {
+			return nil, err
+		}
+		if err := st.Send(&spb.ModifyRequest{Params: &spb.SessionParameters{Redundancy: spb.SessionParameters_SINGLE_PRIMARY, Persistence: spb.SessionParameters_PRESERVE}}); err != nil {
+			return nil, err
+		}
+		if _, err := st.Recv(); err != nil {
+			return nil, err
+		}
+		return st, nil
+	}
+	a, err := open()
+	if err != nil {
+		return false, err
+	}
+	b, err := open()
+	if err != nil {
+		return false, err
+	}
+	if err := a.Send(&spb.ModifyRequest{ElectionId: &spb.Uint128{Low: 3}}); err != nil {
+		return false, err
+	}
+	if _, err := a.Recv(); err != nil {
+		return false, err
+	}
+	p, err := abs.Concretise(abs.Op{ID: 1, NI: srvDefault, Typ: "ADD", Kind: "nh", Key: "7", PL: "a", NHs: []string{}, NoEID: true})
+	if err != nil {
+		return false, err
+	}
+	p.ElectionId = &spb.Uint128{Low: 3}
+	if err := a.Send(&spb.ModifyRequest{Operation: []*spb.AFTOperation{p}}); err != nil {
+		return false, err
+	}
+	if _, err := a.Recv(); err != nil {
+		return false, err
+	}
+	got := make(chan bool, 1)
+	go func() {
+		m, err := b.Recv()
+		got <- err == nil && len(m.GetResult()) > 0
+	}()
+	select {
+	case leaked := <-got:
+		return leaked, nil
+	case <-time.After(2 * time.Second):
+		return false, nil
+	}
 }
 
 func newNode(sink ribdrv.Sink, fwd bool, fault string, names Names) (*node, error) {
